@@ -101,6 +101,9 @@ def check_compact(prop, tier, seed):
                         dict(CC_CONSTS, Writers={"c1", "c2"}, CompactRevs={0, 2, 4}, DelFaults={"err", "cas", "die"}, FaultBudget=1)))
             ccm.append(("concurrent model: 2 writers, conflicts carry no value (TiKV), stepwise compactor",
                         dict(CC_CONSTS, Writers={"c1", "c2"}, CompactRevs={0, 2, 4}, ConflictCarriesValue=False, SnapAtTs=True)))
+        if not quick:
+            ccm.append(("concurrent model: 1 writer, two stepwise compactors",
+                        dict(CC_CONSTS, Compactors={"k1", "k2"}, InitStates={"live2", "deleted", "recreated"})))
         for title, consts in ccm:
             r = run_mc(work, consts, CC_INV, name="mccc")
             cov["states"] += r["distinct"]
